@@ -194,6 +194,86 @@ def locencode(repo):
     return res
 
 
+def driverflags(repo):
+    """R-DRIVERFLAGS (C18): a command-line option that both embossc and one of the split drivers define must be
+    defined the same way (dest, action, default, type, nargs, choices), and neither driver may rewrite the parsed
+    value afterwards — otherwise the same command line means different things to the two build paths (import
+    search order, enum traits)."""
+    res = RuleResult("R-DRIVERFLAGS")
+    drivers = {"embossc": repo.mod("embossc"),
+               "emboss_front_end": repo.mod("compiler/front_end/emboss_front_end.py"),
+               "emboss_codegen_cpp": repo.mod("compiler/back_end/cpp/emboss_codegen_cpp.py")}
+    opts = {}
+    SEM = ("dest", "action", "default", "type", "nargs", "choices", "const", "required")
+    for dname, m in drivers.items():
+        table = {}
+        for n in ast.walk(m.tree):
+            if isinstance(n, ast.Call) and isinstance(n.func, ast.Attribute) and n.func.attr == "add_argument":
+                names = [a.value for a in n.args if isinstance(a, ast.Constant) and isinstance(a.value, str)]
+                long_ = [x for x in names if x.startswith("--")]
+                if not long_:
+                    continue
+                kw = {k.arg: ast.unparse(k.value) for k in n.keywords if k.arg in SEM}
+                table[long_[0]] = (tuple(sorted(names)), kw, n.lineno)
+        if not table:
+            raise AnalysisError(f"{m.rel}: no add_argument calls found")
+        opts[dname] = table
+        # no rewriting of parsed flags
+        for f in m.funcs.values():
+            parsed = set()
+            for n in walk_no_nested_funcs(f.node):
+                if isinstance(n, ast.Assign) and isinstance(n.value, ast.Call) and (call_name(n.value) or "").endswith(("parse_args", "_parse_args", "_parse_command_line")):
+                    parsed |= {t.id for t in n.targets if isinstance(t, ast.Name)}
+            for n in walk_no_nested_funcs(f.node):
+                tg = []
+                if isinstance(n, ast.Assign):
+                    tg = n.targets
+                elif isinstance(n, ast.AugAssign):
+                    tg = [n.target]
+                for t in tg:
+                    if isinstance(t, ast.Attribute) and isinstance(t.value, ast.Name) and t.value.id in parsed:
+                        res.add(f"{m.rel}|{f.qualname}|rewrite|{t.attr}", f"{f.qualname} rewrites the parsed option `{t.attr}` "
+                                f"(`{ast.unparse(n)[:80]}`): the value no longer is what the shared option definition says, so this "
+                                "driver and embossc interpret the same command line differently", m.rel, n.lineno, f.qualname)
+                if isinstance(n, ast.Call) and isinstance(n.func, ast.Attribute) and n.func.attr in ("append", "insert", "extend", "reverse", "sort") \
+                        and isinstance(n.func.value, ast.Attribute) and isinstance(n.func.value.value, ast.Name) and n.func.value.value.id in parsed:
+                    res.add(f"{m.rel}|{f.qualname}|rewrite|{n.func.value.attr}", f"{f.qualname} mutates the parsed option "
+                            f"`{n.func.value.attr}` in place", m.rel, n.lineno, f.qualname)
+    base = opts["embossc"]
+    # options that reach compilation: flags.<dest> handed by embossc to the shared entry points
+    shared = set()
+    for n in ast.walk(drivers["embossc"].tree):
+        if isinstance(n, ast.Call) and (call_name(n) or "").split(".")[-1] in ("parse_and_log_errors", "generate_headers_and_log_errors", "Config"):
+            for x in ast.walk(n):
+                if isinstance(x, ast.Attribute) and isinstance(x.value, ast.Name) and x.value.id == "flags":
+                    shared.add(x.attr)
+    if len(shared) < 3:
+        raise AnalysisError(f"embossc: options handed to the shared entry points: {sorted(shared)}")
+
+    def dest_of(opt, kw):
+        return ast.literal_eval(kw["dest"]) if "dest" in kw else opt.lstrip("-").replace("-", "_")
+
+    for dname in ("emboss_front_end", "emboss_codegen_cpp"):
+        for opt, (names, kw, line) in sorted(opts[dname].items()):
+            if opt not in base or dest_of(opt, base[opt][1]) not in shared:
+                continue
+            res.instances += 1
+            bn, bkw, _ = base[opt]
+            diffs = [f"{k}: embossc {bkw.get(k, '-')} / {dname} {kw.get(k, '-')}" for k in SEM if bkw.get(k) != kw.get(k)]
+            if names != bn:
+                diffs.append(f"spellings {bn} / {names}")
+            if diffs:
+                res.add(f"{drivers[dname].rel}|{opt}", f"option {opt} is defined differently by embossc and {dname}: {'; '.join(diffs)}",
+                        drivers[dname].rel, line)
+            elif len(res.samples) < 4:
+                res.samples.append(f"{opt}: embossc == {dname} ({kw})")
+    if res.instances < 3:
+        raise AnalysisError(f"only {res.instances} shared options found")
+    res.detail = {"options_reaching_compilation": sorted(shared)}
+    res.analysed = [m.rel for m in drivers.values()]
+    return res
+
+
 def drivers(repo):
     """embossc and the split drivers reach parsing and header generation through the same entry points,
     with the same Config construction; the split drivers are connected by to_json / from_json(EmbossIr)."""
